@@ -425,6 +425,10 @@ struct FipsRaceSim : Sim {
                         last_was_spin = (site == site_spin);
                         self->sched.yield((uint64_t) (site == site_fast ? 1 : site == site_cas ? 2 : site == site_spin ? 3 : site == site_final ? 4 : 5));
                 };
+                g_rmw_gap_hook = [](uintptr_t) {
+                        last_was_spin = false;
+                        self->sched.yield(6);
+                };
                 g_generic_hook = [](int kind) {
                         if (self->sched.current() < 0)
                                 return;
@@ -542,12 +546,21 @@ struct FipsRaceSim : Sim {
                         }
                 }
                 g_sched_hook = nullptr;
+                g_rmw_gap_hook = nullptr;
                 g_generic_hook = nullptr;
                 g_kernel_hook = nullptr;
                 arm_interposers(false);
                 g_st.sched = nullptr;
                 g_st.on_event = nullptr;
                 r.ev.add(sched.trace.h);
+                if (g_rmw_split_count) {
+                        r.cov.hit("probe_unlocked_rmw_on_shared_status_executed_as_two_bus_cycles", g_rmw_split_count);
+                        g_rmw_split_count = 0;
+                }
+                if (g_rmw_unmodelled_count) {
+                        r.cov.hit("probe_unlocked_rmw_form_not_modelled", g_rmw_unmodelled_count);
+                        g_rmw_unmodelled_count = 0;
+                }
                 r.cov.hit(strfmt("probe_tasks_%d", n));
                 r.cov.hit(real ? "fault_none_real_self_tests" : verdict == 0 ? "fault_none_injected_pass" : verdict == 1 ? "fault_aes_self_test_fails" : verdict == 2 ? "fault_sha_self_test_fails" : "fault_both_self_tests_fail");
                 r.cov.hit(strfmt("probe_policy_%d", policy));
